@@ -10,6 +10,8 @@
 #include "nmtools/array/index/squeeze.hpp"
 #include "nmtools/array/index/atleast_nd.hpp"
 #include "nmtools/array/index/flatten.hpp"
+#include "nmtools/array/index/moveaxis.hpp"
+#include "nmtools/array/view/swapaxes.hpp"   // index::swapaxes_to_transpose lives in the view header
 
 namespace nm = nmtools;
 namespace ix = nmtools::index;
@@ -20,6 +22,9 @@ using opt_axis_t = nmtools_maybe<unsigned int>;        // normalize_axis(int, si
 using opt_sv_t   = nmtools_maybe<sv_t>;                // normalize_axis(svi_t, size_t)
 using opt_svi_t  = nmtools_maybe<svi_t>;               // shape_reshape(sv_t, svi_t)
 using cnt_t      = nmtools_tuple<int,nm_size_t>;       // count_negative_reshape
+using sv9_t      = nmtools::utl::static_vector<nm_size_t,9>;            // shape_expand_dims(sv_t, int)
+using hyb_t      = nmtools::array::hybrid_ndarray<nm_size_t,8,1>;       // shape_squeeze(sv_t), shape_atleast_nd(sv_t, ct<N>)
+using arr1_t     = nmtools_array<nm_size_t,1>;                          // shape_flatten(sv_t, None)
 
 // ---- normalize_axis (scalar axis / axis list), ndim as the views pass it (len(shape): size_t)
 auto verif_normalize_axis(int axis, nm_size_t ndim) { return ix::normalize_axis(axis,ndim); }
@@ -52,3 +57,8 @@ auto verif_shape_atleast_1d(sv_t shape) { return ix::shape_atleast_nd(shape,nm::
 auto verif_shape_atleast_2d(sv_t shape) { return ix::shape_atleast_nd(shape,nm::meta::ct_v<2>); }
 auto verif_shape_atleast_3d(sv_t shape) { return ix::shape_atleast_nd(shape,nm::meta::ct_v<3>); }
 auto verif_shape_flatten(sv_t shape) { return ix::shape_flatten(shape,nm::None); }
+
+// ---- moveaxis / swapaxes -> transpose axes
+// swapaxes: view::swapaxes passes dim<true>(array); a bounded-dim array gives a clipped integer (run-time dim would yield std::vector)
+auto verif_swapaxes_to_transpose(nm_size_t dim, int axis1, int axis2) { return ix::swapaxes_to_transpose(nm::clipped_size_t<8>(dim),axis1,axis2); }
+auto verif_moveaxis_to_transpose(sv_t shape, int source, int destination) { return ix::moveaxis_to_transpose(shape,source,destination); }
